@@ -13,6 +13,11 @@ import (
 // Flush all of whose writes completed.
 
 func c03Exec(depth int, adversarial bool, junk bool, allCuts bool, postAll bool) explore.Exec {
+	return c03ExecPre(depth, adversarial, junk, allCuts, postAll, nil)
+}
+
+// c03ExecPre: pre runs a fixed prefix (using flush for Flush) before the free letters.
+func c03ExecPre(depth int, adversarial bool, junk bool, allCuts bool, postAll bool, pre func(w *harness.World, flush func(w *harness.World))) explore.Exec {
 	var marks []harness.FlushMark
 	flush := func(w *harness.World) {
 		n := len(w.M.Flushed)
@@ -28,6 +33,9 @@ func c03Exec(depth int, adversarial bool, junk bool, allCuts bool, postAll bool)
 			images = 0
 			w.File.KeepWrites = true
 			w.SetCollection("x", "nil")
+			if pre != nil {
+				pre(w, flush)
+			}
 		},
 		Letters: func(w *harness.World) []Letter {
 			var ls []Letter
@@ -92,6 +100,22 @@ func c03Profiles(tier string) []Profile {
 	return []Profile{
 		{Name: "crash", Exec: c03Exec(d, true, false, true, thorough),
 			Rule: fmt.Sprintf("every history of length <= %d (plus a final Flush) over Set/Delete on x, Set on y, SetCollection/RemoveCollection(y), Flush, Reopen, and Set of adversarial values (MagicEnd x2; MagicBeg x2; a root trailer with offset 0; the leading half of a root record; the trailer of, and a byte-exact copy of, the genuine previous root record) x every prefix of the ordered file writes x every byte-granular truncation of the write in flight; each crash image is opened with NewStore and must equal, through the whole read API, the model state of the most recent Flush whose writes all lie inside the image (empty store or the documented 'no roots' error if none); an independent decoder must agree on which root record is the last complete one; the recovered store then takes a Set and a Flush whose result must be durable (quick: at write boundaries and 4 cuts per write; thorough: every image)", d)},
+		{Name: "stale", Exec: c03ExecPre(2, true, false, true, false, func(w *harness.World, flush func(w *harness.World)) {
+			w.Hist = append(w.Hist, "Flush Set(a,1) Flush |")
+			flush(w)
+			w.SetItem("x", kA, 1, bs("va"))
+			flush(w)
+		}), Rule: "fixed prefix [Flush, Set(a,1), Flush] (two complete root records) then every history of length <= 2 over the same alphabet, whose adversarial values now include the trailer and a byte-exact copy of each of the OLDER root records: a fragment that merely points at an older record must not resurrect it; every write prefix x every byte cut"},
+		{Name: "longtail", Exec: c03ExecPre(0, false, false, true, false, func(w *harness.World, flush func(w *harness.World)) {
+			w.Hist = append(w.Hist, "Set(a,1) Flush Set(b,9000 bytes)")
+			w.SetItem("x", kA, 1, bs("va"))
+			flush(w)
+			big := make([]byte, 9000)
+			for i := range big {
+				big[i] = byte('A' + i%23)
+			}
+			w.SetItem("x", kB, 2, big)
+		}), Rule: "one history [Set(a) Flush Set(b, 9000-byte value) Flush] x every one of the ~9200 byte-granular crash points: every length 0..9100 of uncommitted bytes after the last complete root record (a backward scan that proceeds in chunks of any size up to 8 KiB meets every alignment of the end marker)"},
 		{Name: "junk", Exec: c03Exec(dj, false, true, false, false),
 			Rule: fmt.Sprintf("every history of length <= %d x crash images at write boundaries and cuts {1, n/2, n-1} x every adversarial junk tail and every proper prefix of it appended after the image", dj)},
 	}
